@@ -431,6 +431,13 @@ func runScenario(sc scenario, o *origin.Origin) (origin.Obs, *captured, error) {
 	capt := &captured{}
 	c := newClient(sc, o, capt)
 	defer c.GetTransport().CloseIdleConnections()
+	obs, err := sendOn(c, sc, o, "/c16?x=1")
+	return obs, capt, err
+}
+
+// sendOn sends the request-level part of sc through the (already configured) client c and
+// returns what the origin saw for exactly that request (matched by its target).
+func sendOn(c *req.Client, sc scenario, o *origin.Origin, target string) (origin.Obs, error) {
 	r := c.R()
 	for _, op := range sc.Req {
 		if op.Kind == "set" {
@@ -452,15 +459,21 @@ func runScenario(sc scenario, o *origin.Origin) (origin.Obs, *captured, error) {
 		r.SetBodyBytes([]byte(strings.Repeat("b", sc.BodyLen)))
 	}
 	o.Drain()
-	_, err := r.Send(sc.Method, o.URL+"/c16?x=1")
+	_, err := r.Send(sc.Method, o.URL+target)
 	if err != nil {
-		return origin.Obs{}, capt, err
+		return origin.Obs{}, err
 	}
-	obs, ok := o.Next(10 * time.Second)
-	if !ok {
-		return origin.Obs{}, capt, fmt.Errorf("origin saw no request")
+	deadline := time.Now().Add(10 * time.Second)
+	for {
+		obs, ok := o.Next(time.Until(deadline))
+		if !ok {
+			return origin.Obs{}, fmt.Errorf("origin saw no request")
+		}
+		if obs.Target == target || obs.Target == "" && obs.Err == "" {
+			return obs, nil
+		}
+		// a left-over of an earlier (failed) request on another connection: skip it
 	}
-	return obs, capt, nil
 }
 
 // ---------- oracle ----------
@@ -499,12 +512,33 @@ func diffMS(got, want []string) (missing, extra []string) {
 	return
 }
 
+// oracleCtx: set while the single-request oracle judges a step of a sequence or a member of a
+// clone family, so that the failure names the whole cell as its input
+var oracleCtx *struct {
+	prefix, where string
+	cell          interface{}
+}
+
+func withCtx(prefix, where string, cell interface{}, f func()) {
+	oracleCtx = &struct {
+		prefix, where string
+		cell          interface{}
+	}{prefix, where, cell}
+	defer func() { oracleCtx = nil }()
+	f()
+}
+
 func protoName(p int) string { return fmt.Sprintf("h%d", p) }
 
 func oracle(r *hk.Run, sc scenario, obs origin.Obs) {
 	e := expected(sc)
 	pn := protoName(sc.Proto)
 	fail := func(sig, what string, got, want interface{}) {
+		if oracleCtx != nil { // a step of a sequence / a member of a clone family: report the whole cell
+			r.Fail(hk.Failure{Sig: oracleCtx.prefix + ":" + pn + ":" + sig, What: what + " (" + oracleCtx.where + ")",
+				Input: map[string]interface{}{"request": sc, "cell": oracleCtx.cell}, Got: got, Want: want})
+			return
+		}
 		r.Fail(hk.Failure{Sig: "e2e:" + pn + ":" + sig, What: what, Input: sc, Got: got, Want: want})
 	}
 	if obs.Err != "" {
@@ -737,9 +771,9 @@ func runE2E(r *hk.Run, rng *hk.Rand) {
 		start startFn
 		n     int
 	}{
-		{1, origin.StartH1, r.Scale(260, 4000)},
-		{2, origin.StartH2C, r.Scale(200, 3000)},
-		{3, origin.StartH3, r.Scale(140, 2000)},
+		{1, origin.StartH1, r.Scale(160, 4000)},
+		{2, origin.StartH2C, r.Scale(130, 3000)},
+		{3, origin.StartH3, r.Scale(90, 2000)},
 	}
 	for _, pr := range protos {
 		o, err := pr.start()
